@@ -109,6 +109,9 @@ func init() {
 			ruleRingModulus(c, r, "dec:", "dec")
 			ruleOpSiblings(c, r, "")
 			ruleCodecSiblings(c, r, "")
+			// the reading half of the round trip: the decoder accepts every operation the encoder may emit
+			// (a maximum-length match into exactly that much free space included)
+			ruleDecoderBounds(c, r, "")
 			ruleIO(c, r, c.Cone(nonNilFns(c.Func("lzma", "NewWriter"), c.Func("lzma", "WriterConfig.NewWriter"), c.Func("lzma", "Writer.Write"), c.Func("lzma", "Writer.Close"))...), "", true)
 		},
 	})
